@@ -19,6 +19,15 @@ impl World {
                     return false;
                 }
                 let op = a.script[a.pc];
+                if op.k.is_message() && a.plan.window > 0 && a.known.pending.len() >= a.plan.window {
+                    return false;
+                }
+                if op.k == OpKind::WaitService {
+                    return !self.bb.borrow().services.is_empty();
+                }
+                if op.k == OpKind::WaitSubscribed {
+                    return a.known.subscribed_notifications > 0;
+                }
                 if matches!(op.k, OpKind::EndDropTask | OpKind::EndBrokerShutdownConn) {
                     // Only once the Connection object exists (its id is then known).
                     return a.shared.borrow().raw.is_some();
@@ -745,10 +754,26 @@ impl World {
             if let Some(Err(e)) = &res {
                 let explained = e.contains("Transport") || e.contains("UnexpectedShutdown");
                 if !explained {
+                    // Was a payload that is not a well-formed value, produced by a 1.20 peer, on its
+                    // way to this pre-1.20 connection? (Conversion happens in the receiver's task.)
+                    let garbage_in_flight = a.version.minor() < 20
+                        && a.expected.iter().flat_map(|g| g.msgs.iter()).any(|(m, from)| {
+                            from.map(|v| v.minor() >= 20).unwrap_or(false)
+                                && m.value().is_some_and(|v| v.deserialize_as_value().is_err())
+                        });
                     let v = Violation::new(
                         "conn.closed-by-conversion-error",
                         &[Prop::C11],
-                        format!("Connection::run of actor{i} (1.{}, abuser={}) ended with {e}", a.version.minor(), a.plan.abuser),
+                        format!(
+                            "Connection::run of actor{i} (1.{}, abuser={}) ended with {e}; {}",
+                            a.version.minor(),
+                            a.plan.abuser,
+                            if garbage_in_flight {
+                                "cause: a 1.20 peer's ill-formed payload was forwarded to this pre-1.20 connection"
+                            } else {
+                                "no ill-formed cross-epoch payload was in flight to it"
+                            }
+                        ),
                     );
                     vs.push(v);
                     continue;
